@@ -2,6 +2,7 @@ import RsModel.Model.Combined
 import RsModel.Lemmas.PosComb
 import RsModel.Lemmas.CombInner
 import RsModel.Lemmas.ModeLeaves
+import RsModel.Lemmas.CombTables
 /-!
 # C09 — combined source maps compose outer and inner attribution
 (the pass-through and removal branches; the composition through the inner map is tied by correspondence)
@@ -279,5 +280,36 @@ theorem c09_compose_inner_map (cfg : CombCfg) (st : CombSt) (Tin : Text) (Min : 
     rw [hdefeq]
     simp only [toSeg, hnone]
     omega
+
+/-! ## the translation tables, at name level, for the whole stream -/
+
+/-- **C09, pass-through and fall-back, whole stream, at name level**: every chunk of the combined stream comes from one chunk of
+the outer map's stream with the same text at the same generated position, and — unless it was composed with a segment recorded
+from the inner map (second alternative: the outer chunk points into the inner source, the line is the segment's and the column is
+the segment's start or that start plus the offset into it) — a mapped chunk names, through the announcements of the combined
+stream, the same file as the outer chunk does through the outer stream's announcements, at the same original line and column, and
+a name it carries is the outer chunk's name.  For an outer chunk that points into the inner source where the inner map has no
+mapping this is "attributed to the inner source itself"; for the others "pass through unchanged".  The proof is the invariant
+`KInv` on the nine translation tables; it fails for the pinned tree's de-duplication key (fix F15). -/
+theorem c09_tables_pass (t : Text) (sm : SMap) (n : Text) (os : Option Text) (im : SMap) (rm : Bool) (o : Opts)
+    (h1 : MapIdxOK sm) (h2 : MapIdxOK im) :
+    ∀ t' mm, Ev.chunk t' mm ∈ (streamCombined t sm n os im rm o).evs →
+      ∃ m, Ev.chunk t' m ∈ (streamSM t sm o).evs ∧ mm.gl = m.gl ∧ mm.gc = m.gc ∧
+        ((∀ y, mm.orig = some y → ∃ a, m.orig = some a
+            ∧ (annS (streamCombined t sm n os im rm o).evs)[y.src]? = (annS (streamSM t sm o).evs)[a.src]? ∧ a.src < (annS (streamSM t sm o).evs).length
+            ∧ y.line = a.line ∧ y.col = a.col
+            ∧ ∀ k, y.name = some k → ∃ k', a.name = some k' ∧ (annN (streamCombined t sm n os im rm o).evs)[k]? = (annN (streamSM t sm o).evs)[k']?
+                ∧ k' < (annN (streamSM t sm o).evs).length)
+         ∨ (∃ (a : Orig) (seg : InnerSeg), m.orig = some a ∧ (annS (streamSM t sm o).evs)[a.src]? = some n ∧ 0 ≤ seg.src ∧ ∀ y, mm.orig = some y →
+              y.line = seg.line.toNat ∧ (y.col = seg.col.toNat ∨ (seg.gc < a.col ∧ y.col = (seg.col + ((a.col : Int) - seg.gc)).toNat)))) :=
+  streamCombined_pass t sm n os im rm o h1 h2
+
+/-- the invariant is about a real state: on the witness of F15 (generated text `"abc"`, outer sources `abc` and `in.js`, inner source
+`z.js`; the chunk at column 1 falls back to the inner source, the one at column 2 is composed) three files are announced, each once
+— the pinned tree announced `z.js` under the index already given to `in.js` -/
+example : annS (streamCombined [97, 98, 99] ⟨[65, 65, 65, 65, 44, 67, 67, 65, 65, 44, 67, 65, 65, 75], [[97, 98, 99], [105, 110, 46, 106, 115]], [], [], none, none, none⟩
+      [105, 110, 46, 106, 115] (some [104, 101, 108, 108, 111, 32, 119, 111, 114, 108, 100])
+      ⟨[75, 65, 65, 65], [[122, 46, 106, 115]], [], [], none, none, none⟩ false ⟨true, false⟩).evs
+    = [[97, 98, 99], [105, 110, 46, 106, 115], [122, 46, 106, 115]] := by decide
 
 end Rs
